@@ -34,19 +34,19 @@ CHECKS = {
  "C11": ("exploration", "determinism memo across build configurations + exact FMA contract; TLC trace validation of interleaved std / no_std traces",
          "The same seeded corpus is executed by a default-features and a --no-default-features build; interleaved traces must agree word for word; the cfg-selected fma (hook) is compared with RN(x*y+z) computed by the specification."),
  "C12": ("model_checking", "rigorous ball enclosures of the mathematical constants computed in TLA+ (Machin, atanh series, Taylor, verified division / integer square root) + TLC trace validation; the finite set of constants is checked completely",
-         "All 19 consts::* and FloatConst accessors and the 7 associated constants are compared on every run with the correctly rounded double-double derived from an enclosure computed by the specification; to_degrees/to_radians are decided three-valued against an enclosure of pi on sampled operands."),
+         "All 19 consts::* and FloatConst accessors and the 7 associated constants are compared on every run with the correctly rounded double-double derived from an enclosure computed by the specification; to_degrees/to_radians are decided three-valued against an enclosure of pi on sampled operands. The exhaustive families of harness/src/gen5.rs add: every function of the family on every structural value (significand shapes x low-word classes) at the exponents where its behaviour changes (function lattices), every exponent of the format for the operations with exactness claims at powers of two (exponent_sweep), and for exp the exact node and midpoint of every lookup-table entry (exp_nodes)."),
  "C13": ("exploration", "TLA+ contracts: exact dyadic inequalities on r^2 / r^3, ball enclosure of x^|n| by binary powering; TLC trace validation",
-         "sqrt/cbrt/hypot tolerances are exact integer inequalities; powi is checked against an enclosure of x^|n| for exponents log-uniform in |n| with i32::MIN/MAX, 0, +-1 always included, the n = 0 / 1 clauses, totality (no panic) and powi(x,-n) == recip(powi(x,n)) through the memo." + LEGA),
+         "sqrt/cbrt/hypot tolerances are exact integer inequalities; powi is checked against an enclosure of x^|n| for exponents log-uniform in |n| with i32::MIN/MAX, 0, +-1 always included, the n = 0 / 1 clauses, totality (no panic) and powi(x,-n) == recip(powi(x,n)) through the memo. The exhaustive families of harness/src/gen5.rs add: every function of the family on every structural value (significand shapes x low-word classes) at the exponents where its behaviour changes (function lattices), every exponent of the format for the operations with exactness claims at powers of two (exponent_sweep), and for exp the exact node and midpoint of every lookup-table entry (exp_nodes)." + LEGA),
  "C14": ("exploration", "TLA+ ball-arithmetic enclosures of exp / expm1 (Taylor with explicit remainder, enclosure of ln 2) + TLC trace validation, three-valued verdicts",
-         "Accuracy floors, exact points, saturation and the sign/parity rules of exp, exp2, exp_m1, powf are decided on stratified arguments (every lookup-table entry from both reduction sides, every range switch, tie low words); a panic is a violation on the whole valid domain." + LEGA),
+         "Accuracy floors, exact points, saturation and the sign/parity rules of exp, exp2, exp_m1, powf are decided on stratified arguments (every lookup-table entry from both reduction sides, every range switch, tie low words); a panic is a violation on the whole valid domain. The exhaustive families of harness/src/gen5.rs add: every function of the family on every structural value (significand shapes x low-word classes) at the exponents where its behaviour changes (function lattices), every exponent of the format for the operations with exactness claims at powers of two (exponent_sweep), and for exp the exact node and midpoint of every lookup-table entry (exp_nodes)." + LEGA),
  "C15": ("exploration", "TLA+ enclosure of ln by rigorous Newton steps through the exp enclosure + TLC trace validation",
-         "ln, log2, log10, ln_1p floors, exact points, domain errors and panic-freedom on 1960 binades, densely around 1 and at -1 < x; log/log10 as quotients through the memo."),
+         "ln, log2, log10, ln_1p floors, exact points, domain errors and panic-freedom on 1960 binades, densely around 1 and at -1 < x; log/log10 as quotients through the memo. The exhaustive families of harness/src/gen5.rs add: every function of the family on every structural value (significand shapes x low-word classes) at the exponents where its behaviour changes (function lattices), every exponent of the format for the operations with exactness claims at powers of two (exponent_sweep), and for exp the exact node and midpoint of every lookup-table entry (exp_nodes)."),
  "C16": ("exploration", "TLA+ enclosures of sin / cos (reduction with an enclosure of pi/2) + TLC trace validation",
-         "Absolute/relative floors of sin, cos, the tan bound cross-multiplied by cos^2, sin_cos == (sin, cos) through the memo, exact points, invalid arguments." + LEGA),
+         "Absolute/relative floors of sin, cos, the tan bound cross-multiplied by cos^2, sin_cos == (sin, cos) through the memo, exact points, invalid arguments. The exhaustive families of harness/src/gen5.rs add: every function of the family on every structural value (significand shapes x low-word classes) at the exponents where its behaviour changes (function lattices), every exponent of the format for the operations with exactness claims at powers of two (exponent_sweep), and for exp the exact node and midpoint of every lookup-table entry (exp_nodes)." + LEGA),
  "C17": ("exploration", "monotone inversion through the sin / cos enclosures at r +- tolerance (exact end points) + TLC trace validation",
-         "asin, acos, atan, atan2 floors, branch conventions on the axes (bit-identical to the correctly rounded pi, pi/2), domain errors." + LEGA),
+         "asin, acos, atan, atan2 floors, branch conventions on the axes (bit-identical to the correctly rounded pi, pi/2), domain errors. The exhaustive families of harness/src/gen5.rs add: every function of the family on every structural value (significand shapes x low-word classes) at the exponents where its behaviour changes (function lattices), every exponent of the format for the operations with exactness claims at powers of two (exponent_sweep), and for exp the exact node and midpoint of every lookup-table entry (exp_nodes)." + LEGA),
  "C18": ("exploration", "enclosures of exp; monotone inversion for the inverse functions + TLC trace validation",
-         "sinh, cosh, tanh, asinh, acosh, atanh floors with (x, -x) pairs at every magnitude, exact points, domain errors, panic-freedom."),
+         "sinh, cosh, tanh, asinh, acosh, atanh floors with (x, -x) pairs at every magnitude, exact points, domain errors, panic-freedom. The exhaustive families of harness/src/gen5.rs add: every function of the family on every structural value (significand shapes x low-word classes) at the exponents where its behaviour changes (function lattices), every exponent of the format for the operations with exactness claims at powers of two (exponent_sweep), and for exp the exact node and midpoint of every lookup-table entry (exp_nodes)."),
  "C20": ("model_checking", "TLA+ contracts: tokeniser over the logged character sequence + the deserialisation acceptance automaton (well-formed and NoOverlapDef) ; TLC trace validation of the format matrix and of every input shape",
          "Display/LowerExp/UpperExp outputs are tokenised by the specification and compared with f64 parsing / f64 renderings for the whole flag matrix; Serialize output and Deserialize outcomes (sequence, map in both orders, missing/duplicate/unknown fields, overlapping and non-finite words) are validated against the acceptance automaton with the serde feature enabled."),
 }
